@@ -59,6 +59,7 @@ class Lemma:
     expect_fail_prefix: str = "VACUITY"             # obligations that MUST fail (reachability)
     solver: list = field(default_factory=lambda: ["--sat-solver", "cadical"])
     slice: bool = True              # --slice-formula (cone of influence per obligation)
+    ignore: list = field(default_factory=list)     # regexes of obligation names that are artefacts of evaluating a spec predicate (listed in the evidence)
 
 
 @dataclass
@@ -74,6 +75,7 @@ class Result:
     log: str = ""
     sentinels: int = 0
     cmd: str = ""
+    ignored: list = field(default_factory=list)
 
 
 def sh(cmd, timeout, mem_gb, cwd=None, env=None):
@@ -208,6 +210,9 @@ def run_lemma(l, known):
                 sentinels_ok += 1
             else:
                 sentinels_bad.append(descr)
+            continue
+        if any(re.search(rx, name) for rx in l.ignore):
+            res.ignored.append(name + ": " + descr + " [" + str(status) + "]")
             continue
         res.obligations += 1
         if status == "SUCCESS":
